@@ -928,6 +928,26 @@ def pair_checks(keys, tier):
                 viol.append({"property": "C15", "site": "pairs:eq-wrong", "op": {"op": "compare"}, "detail": "== gives %r/%r, expected %r: %r vs %r" % (e1, e2, want, describe_key(a), describe_key(b)), "state": a, "other": b})
             if n1 is not (not want):
                 viol.append({"property": "C15", "site": "pairs:ne-wrong", "op": {"op": "compare"}, "detail": "!= gives %r, expected %r" % (n1, not want), "state": a, "other": b})
+    # single-component variants of EVERY state: same entries with one more row / one more trailing column / another common value
+    for k in sorted(keys, key=repr):
+        shape, common, ents = k
+        listed = {c[0] for c, b, ds in ents}
+        variants = [((shape[0] + 1,) + tuple(shape[1:]), common, ents)]
+        if len(shape) >= 2:
+            variants.append((tuple(shape[:-1]) + (shape[-1] + 1,), common, ents))
+        other_common = next(v for v in (7, 8, 9) if v not in listed and v != common)
+        variants.append((shape, other_common, ents))
+        oa = build(k)
+        for vk in variants:
+            npairs += 1
+            try:
+                ob = build(vk)
+                e1, e2, n1 = oa == ob, ob == oa, oa != ob
+            except Exception as ex:  # noqa
+                viol.append({"property": "C15", "site": "pairs:raised", "op": {"op": "compare"}, "detail": "comparison raised %r" % (ex,), "state": k, "other": vk})
+                continue
+            if e1 is not False or e2 is not False or n1 is not True:
+                viol.append({"property": "C15", "site": "pairs:eq-wrong", "op": {"op": "compare"}, "detail": "indexes differing only in shape or common value compare ==: %r / %r, != gives %r: %r vs %r" % (e1, e2, n1, describe_key(k), describe_key(vk)), "state": k, "other": vk})
     # cross-shape and non-index comparisons
     some = sorted(keys, key=repr)[:: max(1, len(keys) // 200)]
     for a in some:
